@@ -129,3 +129,53 @@ package execution
 //@   ensures removed: result == nil ==> forallK(k, thas(b.tree, k) ==> k > watermark.ns)
 //@   ensures kept: forallK(k, k > watermark.ns ==> thas(b.tree, k) == old(thas(b.tree, k)))
 //@   ensures ri: bufRI(b)
+
+// C09 (+C02/C03/C05/C15: every ordered container of key tuples relies on it): CompareValueSlices is the strict
+// lexicographic order induced by Value.Compare, a shorter tuple sorting before its extensions. It is a strict weak
+// order: irreflexive, asymmetric, transitive, and "neither is less" means "same length and elementwise Compare-equal"
+// (so btree lookups find exactly the Compare-equal key — NULL keys included, NULL compares equal to NULL).
+//@ spec sless(a []Value, b []Value) bool
+//@ spec validVs(a []Value) bool = forall(j, 0, len(a), validV(a[j]))
+//@ func CompareValueSlices
+//@   requires validVs(key) && validVs(than)
+//@   pure
+//@   defines result == sless(key, than)
+//@   loop 1 invariant prefix: 0 <= i && i <= maxLen && forall(j, 0, i, j < len(key) && j < len(than) && cmp(key[j], than[j]) == 0)
+//@   ensures lex.diff: forall(p, 0, len(key), p < len(than) && forall(j, 0, p, cmp(key[j], than[j]) == 0) && cmp(key[p], than[p]) != 0 ==> result == (cmp(key[p], than[p]) == 0 - 1))
+//@   ensures lex.prefix: forall(j, 0, len(key), j < len(than) ==> cmp(key[j], than[j]) == 0) ==> result == (len(key) < len(than))
+//@ lemma slessIrrefl(a []Value)
+//@   requires validVs(a)
+//@   ensures irreflexive: !CompareValueSlices(a, a)
+//@   use cmpRefl(a[exit(CompareValueSlices(a, a), "i", 1)])
+//@ lemma slessAsym(a []Value, b []Value)
+//@   requires validVs(a) && validVs(b)
+//@   ensures asymmetric: !(CompareValueSlices(a, b) && CompareValueSlices(b, a))
+//@   use cmpAnti(a[exit(CompareValueSlices(a, b), "i", 1)], b[exit(CompareValueSlices(a, b), "i", 1)])
+//@   use cmpAnti(a[exit(CompareValueSlices(b, a), "i", 1)], b[exit(CompareValueSlices(b, a), "i", 1)])
+//@ lemma slessEquiv(a []Value, b []Value)
+//@   requires validVs(a) && validVs(b)
+//@   ensures equivalence: (!CompareValueSlices(a, b) && !CompareValueSlices(b, a)) == (len(a) == len(b) && forall(j, 0, len(a), cmp(a[j], b[j]) == 0))
+//@   use cmpAnti(a[exit(CompareValueSlices(a, b), "i", 1)], b[exit(CompareValueSlices(a, b), "i", 1)])
+//@   use cmpAnti(a[exit(CompareValueSlices(b, a), "i", 1)], b[exit(CompareValueSlices(b, a), "i", 1)])
+//@ lemma slessTrans(a []Value, b []Value, c []Value)
+//@   requires validVs(a) && validVs(b) && validVs(c)
+//@   ensures transitive: CompareValueSlices(a, b) && CompareValueSlices(b, c) ==> CompareValueSlices(a, c)
+//@   use cmpTrans(a[exit(CompareValueSlices(a, b), "i", 1)], b[exit(CompareValueSlices(a, b), "i", 1)], c[exit(CompareValueSlices(a, b), "i", 1)])
+//@   use cmpTrans(a[exit(CompareValueSlices(b, c), "i", 1)], b[exit(CompareValueSlices(b, c), "i", 1)], c[exit(CompareValueSlices(b, c), "i", 1)])
+//@   use cmpTrans(a[exit(CompareValueSlices(a, c), "i", 1)], b[exit(CompareValueSlices(a, c), "i", 1)], c[exit(CompareValueSlices(a, c), "i", 1)])
+//@   use cmpAnti(a[exit(CompareValueSlices(a, c), "i", 1)], c[exit(CompareValueSlices(a, c), "i", 1)])
+//@ lemma slessNegTrans(a []Value, b []Value, c []Value)
+//@   requires validVs(a) && validVs(b) && validVs(c)
+//@   ensures incomparable: !CompareValueSlices(b, a) && !CompareValueSlices(c, b) ==> !CompareValueSlices(c, a)
+//@   use cmpTrans(a[exit(CompareValueSlices(b, a), "i", 1)], b[exit(CompareValueSlices(b, a), "i", 1)], c[exit(CompareValueSlices(b, a), "i", 1)])
+//@   use cmpAnti(a[exit(CompareValueSlices(b, a), "i", 1)], b[exit(CompareValueSlices(b, a), "i", 1)])
+//@   use cmpAnti(b[exit(CompareValueSlices(b, a), "i", 1)], c[exit(CompareValueSlices(b, a), "i", 1)])
+//@   use cmpAnti(a[exit(CompareValueSlices(b, a), "i", 1)], c[exit(CompareValueSlices(b, a), "i", 1)])
+//@   use cmpTrans(a[exit(CompareValueSlices(c, b), "i", 1)], b[exit(CompareValueSlices(c, b), "i", 1)], c[exit(CompareValueSlices(c, b), "i", 1)])
+//@   use cmpAnti(a[exit(CompareValueSlices(c, b), "i", 1)], b[exit(CompareValueSlices(c, b), "i", 1)])
+//@   use cmpAnti(b[exit(CompareValueSlices(c, b), "i", 1)], c[exit(CompareValueSlices(c, b), "i", 1)])
+//@   use cmpAnti(a[exit(CompareValueSlices(c, b), "i", 1)], c[exit(CompareValueSlices(c, b), "i", 1)])
+//@   use cmpTrans(a[exit(CompareValueSlices(c, a), "i", 1)], b[exit(CompareValueSlices(c, a), "i", 1)], c[exit(CompareValueSlices(c, a), "i", 1)])
+//@   use cmpAnti(a[exit(CompareValueSlices(c, a), "i", 1)], b[exit(CompareValueSlices(c, a), "i", 1)])
+//@   use cmpAnti(b[exit(CompareValueSlices(c, a), "i", 1)], c[exit(CompareValueSlices(c, a), "i", 1)])
+//@   use cmpAnti(a[exit(CompareValueSlices(c, a), "i", 1)], c[exit(CompareValueSlices(c, a), "i", 1)])
